@@ -175,7 +175,7 @@ def check_max_response_time(rep, crate):
         rep.ok('FP-MAX', 'FP-MAX:all', where, 'the comparator sees every item of the sequence (no adaptor in between)', fn=MAXRT)
     else:
         rep.bad('FP-MAX', 'FP-MAX:all', where, f'maximum is taken over {T.show(mb[1])}', 'the whole parameter sequence', fn=MAXRT)
-    got = T.norm_bv(mb[2])[2]
+    got = T.alpha(mb[2])[2]
     # Iterator::max_by keeps the *left* (earlier, accumulated) item iff the comparator says Greater
     if got == want_cmp:
         rep.ok('FP-MAX', 'FP-MAX:cmp', where,
